@@ -23,6 +23,17 @@ Tie.  Three kinds of cases:
           computations strictly alternate (deterministic, no sleeps, bounded waits)
           ... and steps where the caller edits a dict that digest()/hexdigest()/bytehexdigest()
           returned earlier (the returned-container channel)
+  rehash  one path hashed 2-4 times through every path-taking entry point while its bytes are
+          replaced in between (in place with size and mtime preserved, by rename, through links),
+          and two paths of identical stat shape hashed alternately
+  shape   the TYPES and defaults of the arguments: hash_names as list / set / frozenset / tuple /
+          dict / keys view / generator / iterator / left at its default, names and lengths of str /
+          int subclasses (and True for 1), data and chunks as bytes / bytearray / memoryview / a
+          bytes subclass, read() returning those, paths as str / bytes / pathlib.Path / relative /
+          with `..` / through a directory symlink / with a non-UTF-8 name
+  hgd     hashutil.hash_git_data for every git object type x base algorithm, unknown types
+  seq     2-5 contents of the same length differing in one byte hashed one after another (and
+          again) through the in-memory entry points, optionally re-filling ONE BytesIO object
   stream  MultiHash.from_file on every stream class (BytesIO, BytesIO subclass, real file buffered /
           unbuffered, BufferedReader over a raw stream, raw stream, duck types, mmap) brought to a
           position other than 0 by read / read1 / readinto / readline / seek / seek from the end /
@@ -59,7 +70,8 @@ CASE_TIMEOUT = 60
 THEOREMS = ["C01_chunking", "C01_chunking_digest", "C01_from_file_total", "C01_block_zero",
             "C01_block_size_positive", "C01_routes_agree", "C01_blob_manifest", "C01_subsets",
             "C01_subsets_independent", "C01_new_errors", "C01_copy_independent", "C01_copy_refuted_old",
-            "C01_wrong_length_example", "C01_view_sound", "C01_satisfiable"]
+            "C01_wrong_length_example", "C01_view_sound", "C01_satisfiable", "C01_hash_git_data_any",
+            "C01_git_types_space_free"]
 RULE = ("lengths {0,1,2} + {k*32768+d | k in 0..3, d in -2..2} + random <= 100 kB (half of them <= 2 kB); contents "
         "random / all-zero / all-0xff; chunkings: random cuts with forced empty chunks, 1-byte chunks, cuts exactly at "
         "block multiples, whole, none-then-whole; readers: BytesIO, real temporary file, short-reading file object "
@@ -86,20 +98,45 @@ RULE = ("lengths {0,1,2} + {k*32768+d | k in 0..3, d in -2..2} + random <= 100 k
         "the remaining size, the whole size, or None; optional name subsets and short reads.  The reference is the digests and "
         "length of the REMAINING bytes (what a plain fobj.read() would return); the model is unchanged - it hashes the byte "
         "string it is given, i.e. the remaining bytes; the stream must be exhausted afterwards (the model's loop runs up to the "
-        "empty read; compared as correspondence, not as part of the property).  RETURNED-CONTAINER channel: the dicts returned "
+        "empty read; compared as correspondence, not as part of the property).  REHASH cases: one path whose bytes are replaced between 2-4 hashings - in place "
+        "(same inode, open r+b or wb) with the same length and atime/mtime restored to the exact previous st_*_ns, in place with "
+        "the mtime left to change, in place with another length and the mtime restored, by rename of a new file (new inode) "
+        "carrying the old times - hashed directly, through a hard link, through a symbolic link, or alternately; and the mirror: "
+        "two paths of identical size, atime and mtime with different bytes hashed alternately (optionally swapped in place); each "
+        "hashing goes, in a random order, through MultiHash.from_path, from_disk.Content.from_file, "
+        "Directory.from_disk(parent)[name], Content.from_file().to_model().with_data(), iter_directory(Directory.from_disk(parent)), "
+        "`swh identify <path>` in process (CliRunner) and, for a few, in a subprocess; every result must be the digests/length "
+        "of the bytes in the file AT THAT MOMENT (the model, a pure function of the bytes read, is run once per hashing on "
+        "those bytes).  ARGUMENT SHAPES (kind shape): hash_names passed as list, set, frozenset, tuple, dict, dict keys view, generator, "
+        "iterator (a fresh container per call; the library must leave it unmodified) or left at its default (the argument omitted: "
+        "MultiHash(), from_data(d), from_file(f, length=n), from_path(p)), names as str subclasses, length as int / an int subclass / "
+        "True-False for 1-0 bytes, data and update() chunks as bytes / bytearray / memoryview / a bytes subclass, a stream whose "
+        "read() returns such objects, the path as str / bytes / pathlib.Path / relative to a changed cwd / './f' / 'sub/../f' / through "
+        "a symlinked directory / with a non-UTF-8 file name, from_bytes modes, Content.from_data(status='hidden', ctime=...) with "
+        "get_hash / to_dict / unique_key / swhid / hashes, SkippedContent.hashes / unique_key, cli.swhid_of_file(_content) called "
+        "directly.  HASH_GIT_DATA (kind hgd): the 7 git object types and 4 unknown ones x 11 base algorithm spellings (default, upper "
+        "case, blake2 sizes, sha3).  SEQUENCES (kind seq): 2-5 contents of one length that differ in one byte (first / middle / last / "
+        "random position) visited in order and revisited, through one or rotating in-memory entry points, each data object fresh "
+        "(the previous one freed: address reuse), optionally ONE BytesIO re-filled for every visit.  FAILURE: an overlap mode where the "
+        "stream of the first part raises an OSError subclass at its k-th read; from_file must propagate it and the computations "
+        "made afterwards must be unaffected.  Also: hashutil's module constants (ALGORITHMS, DEFAULT_ALGORITHMS, HASH_BLOCK_SIZE) are "
+        "compared before/after every case; scripts clear the names list right after constructing the hasher; the routes call "
+        "from_symlink directly, Content.from_file on /dev/null and on a directory, to_model() of visible and absent contents, and "
+        "the four *_to_* conversion helpers on every digest; thorough adds three inputs of 0.6-1 MiB.  RETURNED-CONTAINER channel: "
+        "the dicts returned "
         "by digest()/hexdigest()/bytehexdigest() (and by model.Content.hashes()) are edited by the caller (clear, pop, overwrite "
         "every value, add keys, rotate values; a read-only container is tolerated) - in the chunked route after each of four "
         "successive accessor calls, in scripts ('m' steps) between further update()/copy() calls, between two successive calls "
         "without update, on the hasher, on its copy(), and before a fresh hasher is fed the same bytes; every later result must "
         "be that of the bytes fed (the model has no such step: its digests are a pure function of the bytes fed so far).  "
         "non-trivial = data >= 1 byte and (>= 2 chunks or an entry point other than "
-        "MultiHash.from_data), scripts: >= 1 byte fed and (>= 1 copy or >= 2 hashers), overlap: >= 2 non-empty parts, stream: position > 0; "
+        "MultiHash.from_data), scripts: >= 1 byte fed and (>= 1 copy or >= 2 hashers), overlap: >= 2 non-empty parts, stream: position > 0, rehash: >= 2 distinct contents; "
         "distinct = distinct case")
 TRUSTED = ["hashlib objects behave as 'bytes fed so far' (update appends, digest is a function of the bytes fed, copy() "
            "is independent) - the modelling convention of DESIGN.md section 3",
            "file objects honour the reader contract (non-empty prefixes of the REMAINING bytes - from the stream's current "
            "position -, at most the requested size, empty only at EOF); the file is not modified between "
-           "os.path.getsize/lstat and the reads",
+           "os.path.getsize/lstat and the reads of ONE hashing (between two hashings the rehash cases change it on purpose)",
            "lib/Sha1.v is only an instance of the hash oracle (validated against hashlib end to end on every run)",
            "that git's blob id is sha1('blob <len>\\0' + data) is validated with `git hash-object --stdin`, not proved"]
 ASSUMPTIONS = ["the length declared to MultiHash(length=) is the real length on the routes the property speaks about "
@@ -108,6 +145,11 @@ ASSUMPTIONS = ["the length declared to MultiHash(length=) is the real length on 
                "hashlib accepts the base algorithm of every member of ALGORITHMS (checked at run time: pre_checks)",
                "CoreSWHID's 20-byte validation of the object id is not modelled (H is uninterpreted); the printed "
                "SWHID is compared as text",
+               "argument TYPES do not exist in the model (it sees byte strings, lists of names, numbers): that the code treats every "
+               "accepted Python type alike is checked by the shape cases only.  Outside the domain and not exercised: a memoryview "
+               "with itemsize > 1 as chunk (len() counts items, so the tracked length is not the byte count), negative or float "
+               "declared lengths, text-mode streams, files whose st_size is not the number of bytes read (/proc), "
+               "model.Content.from_data on bytearray/memoryview (rejected by the attrs validator), base algorithms hashlib lacks",
                "the model is a pure function of the bytes of ONE computation (a MultiHash cell shares nothing with another "
                "cell: C01_chunking's frame clause, C01_copy_independent); that the implementation has no state shared between "
                "two computations (module-level buffers, caches of hashlib objects, ...) is not a theorem about the code but is "
@@ -123,6 +165,7 @@ MULTIHASH_ROUTES = ("fd", "ff", "ffr", "ffs", "fp", "fpl", "ch")
 
 def HL(algo, data):
     """hashlib as the oracle H: hashlib algorithm name -> bytes -> digest"""
+    algo = algo.lower()
     if algo.startswith("blake2"):
         return getattr(hashlib, algo[:7])(data, digest_size=int(algo[7:]) // 8).digest()
     return hashlib.new(algo, data).digest()
@@ -332,6 +375,14 @@ def impl_routes(c):
         scribble(h1, EDITS[len(data) % len(EDITS)])                       # the caller edits the dict hashes() returned
         r = content_res(lambda k: getattr(o, k), o.length)
         r["hashes"] = [first, {k: v.hex() for k, v in o.hashes().items()}]
+        bad = []                                                          # the *_to_* helpers (lru_cache'd) on these very digests
+        for k in ("sha1", "sha1_git", "sha256", "blake2s256"):
+            dg = getattr(o, k)
+            hx_, bhx = dg.hex(), dg.hex().encode()
+            if not (hashutil.hash_to_hex(dg) == hx_ and hashutil.hash_to_hex(hx_) == hx_ and hashutil.hash_to_bytehex(dg) == bhx
+                    and hashutil.hash_to_bytes(hx_) == dg and hashutil.hash_to_bytes(dg) == dg and hashutil.bytehex_to_hash(bhx) == dg):
+                bad.append(k)
+        r["cv_bad"] = bad
         return r
     res["mc"] = guard(mc)
 
@@ -352,6 +403,9 @@ def impl_routes(c):
         r = content_res(lambda k: o.data[k], o.data["length"],
                         {"absent": "01" if o.data["status"] == "absent" else "00"})
         r["hash"] = o.hash.hex()
+        m = o.to_model()                                                  # Content or, beyond max_content_length, SkippedContent
+        r["hashes"] = [{k: v.hex() for k, v in m.hashes().items()}]
+        r["model_length"] = m.length
         return r
     res["df"] = guard(df)
     if c.get("symlink"):
@@ -368,6 +422,11 @@ def impl_routes(c):
                 o = from_disk.Content.from_file(path=lp.encode(), max_content_length=c.get("maxlen"))
                 return content_res(lambda k: o.data[k], o.data["length"])
             res["dl"] = guard(dl)
+            if c.get("maxlen") is None:
+                def dls():                                                # the documented constructor for links, called directly
+                    o = from_disk.Content.from_symlink(path=lp.encode(), mode=os.lstat(lp).st_mode)
+                    return content_res(lambda k: o.data[k], o.data["length"])
+                res["dls"] = guard(dls)
     if c.get("fifo"):
         fp = os.path.join(tmpdir(), "fifo")
         if not os.path.exists(fp):
@@ -377,6 +436,11 @@ def impl_routes(c):
             o = from_disk.Content.from_file(path=fp.encode(), max_content_length=c.get("maxlen"))
             return content_res(lambda k: o.data[k], o.data["length"])
         res["do"] = guard(do)
+        for code, other in (("do2", b"/dev/null"), ("do3", tmpdir().encode())):       # a character device, a directory
+            def doo(other=other):
+                o = from_disk.Content.from_file(path=other, max_content_length=c.get("maxlen"))
+                return content_res(lambda k: o.data[k], o.data["length"])
+            res[code] = guard(doo)
     runner = CliRunner()
 
     def cli(args, **kw):
@@ -411,7 +475,9 @@ def impl_script(c):
     for op in c["ops"]:
         try:
             if op[0] == "n":
-                vs.append(MultiHash(hash_names=list(op[1]), length=op[2]))
+                nm = list(op[1])
+                vs.append(MultiHash(hash_names=nm, length=op[2]))
+                nm.clear()                # the caller's list is its own: the hasher must not depend on it any more
                 evs.append("done")
             elif op[0] == "u":
                 ch = bytes.fromhex(op[2])
@@ -607,6 +673,20 @@ def impl_overlap(c):
                     res["p%d" % (k + 1)].append(run_part(parts[k + 1], k + 1, hook_for(k + 1)))
             return hook
         res["p0"].append(run_part(parts[0], 0, hook_for(0)))
+    elif c["mode"] == "failure":
+        # the stream of part 0 fails (raises) at its fail_at-th call; the other parts are hashed afterwards
+        state = {"calls": 0, "raised": False}
+
+        def hook(phase):
+            if phase == "before":
+                state["calls"] += 1
+                if state["calls"] - 1 == c["fail_at"]:
+                    state["raised"] = True
+                    raise Boom("injected read error")
+        res["p0"].append(run_part(parts[0], 0, hook))
+        for k in range(1, len(parts)):
+            res["p%d" % k].append(run_part(parts[k], k, nohook))
+        res["raised"] = state["raised"]
     elif c["mode"] == "threads":
         # one thread per part; a token is passed round-robin: a stream part hands over inside each read()/readinto()
         # (so the blocks of the computations strictly alternate), a non-stream part runs whole in one turn.  No sleeps;
@@ -775,13 +855,416 @@ def impl_stream(c):
     return {"ff": r}
 
 
+# ---- rehash: the same path hashed again after its bytes were replaced ----------------------------
+def rehash_steps(c):
+    """[(file, content index, via-link?)] for every hashing of the case, in order: a pure function of the case"""
+    if c["shape"] == "mirror":
+        steps = []
+        for r in range(c["rounds"]):
+            swapped = c.get("swap") and r >= 1
+            steps += [("f", 1 if swapped else 0, False), ("g", 0 if swapped else 1, False)]
+        return steps
+    via = c.get("via", "real")
+    return [("f", k, via in ("hardlink", "symlink") or via.startswith("alt-") and k % 2 == 1) for k in range(len(c["contents"]))]
+
+
+def replace_file(path, data, mode):
+    """replace the bytes of the file at path.  mode = <letter>[:<open mode>]
+       a  in place (same inode), atime/mtime restored to the exact previous values     (same length expected)
+       b  in place, times not restored
+       c  in place, times restored                                                     (another length expected)
+       d  a new file (new inode) renamed over the path, the old times copied onto it"""
+    letter, _, om = mode.partition(":")
+    st = os.stat(path)
+    if letter == "d":
+        tmp = path + ".new"
+        with open(tmp, "wb") as f:
+            f.write(data)
+        os.utime(tmp, ns=(st.st_atime_ns, st.st_mtime_ns))
+        os.replace(tmp, path)
+        return
+    with open(path, om or "r+b") as f:
+        f.write(data)
+        f.truncate()
+    if letter in ("a", "c"):
+        os.utime(path, ns=(st.st_atime_ns, st.st_mtime_ns))
+
+
+def hash_path_routes(P, parent, name, order, single):
+    """every path-taking entry point on the path P (bytes of the file NOW)"""
+    from click.testing import CliRunner
+    from swh.model import from_disk, hashutil
+    from swh.model.cli import identify
+    res = {}
+    for code in order:
+        if code == "fp":
+            names = list(hashutil.DEFAULT_ALGORITHMS) + ["length"]
+            res[code] = guard(lambda: mh_res(hashutil.MultiHash.from_path(P, hash_names=names).digest()))
+        elif code == "df":
+            def df():
+                o = from_disk.Content.from_file(path=P.encode())
+                r = content_res(lambda k: o.data[k], o.data["length"], {"absent": "01" if o.data["status"] == "absent" else "00"})
+                r["hash"] = o.hash.hex()
+                return r
+            res[code] = guard(df)
+        elif code == "dd":
+            def dd():
+                o = from_disk.Directory.from_disk(path=parent.encode())[name.encode()]
+                r = content_res(lambda k: o.data[k], o.data["length"], {"absent": "01" if o.data["status"] == "absent" else "00"})
+                r["hash"] = o.hash.hex()
+                return r
+            res[code] = guard(dd)
+        elif code == "tm":
+            def tm():
+                o = from_disk.Content.from_file(path=P.encode()).to_model().with_data()
+                r = content_res(lambda k: getattr(o, k), o.length, {"absent": "00"})
+                r["data_sha256"] = hashlib.sha256(o.data).hexdigest()
+                return r
+            res[code] = guard(tm)
+        elif code == "id" and single:
+            def it():
+                cs, sk, ds = from_disk.iter_directory(from_disk.Directory.from_disk(path=parent.encode()))
+                if len(cs) != 1 or sk:
+                    return {"error": "Other(%d contents, %d skipped)" % (len(cs), len(sk))}
+                o = cs[0]
+                r = content_res(lambda k: getattr(o, k), o.length, {"absent": "00"})
+                r["data_sha256"] = hashlib.sha256(o.data).hexdigest()
+                return r
+            res[code] = guard(it)
+        elif code == "cf":
+            def cf():
+                r = CliRunner().invoke(identify, ["--no-filename", P])
+                if r.exit_code != 0:
+                    return {"error": exc_class(r.exception) if r.exception else "Exit(%d)" % r.exit_code}
+                return {"length": None, "d": {"swhid": r.output.rstrip("\n").encode().hex()}}
+            res[code] = guard(cf)
+        elif code == "sp":
+            def sp():
+                p = subprocess.run([sys.executable, "-m", "swh.model.cli", "--no-filename", P], capture_output=True, timeout=50,
+                                   env=dict(os.environ, PYTHONPATH=os.environ.get("VERIF_REPO", "/repo")))
+                if p.returncode != 0:
+                    return {"error": "Exit(%d)" % p.returncode}
+                return {"length": None, "d": {"swhid": p.stdout.rstrip(b"\n").hex()}}
+            res[code] = guard(sp)
+    return res
+
+
+def impl_rehash(c):
+    base = tempfile.mkdtemp(prefix="rh", dir=tmpdir())
+    try:
+        real, via = os.path.join(base, "real"), os.path.join(base, "via")
+        os.mkdir(real)
+        os.mkdir(via)
+        contents = [data_of(sp) for sp in c["contents"]]
+        steps = rehash_steps(c)
+        out = []
+        pf, pg, pl = os.path.join(real, "f"), os.path.join(real, "g"), os.path.join(via, "l")
+        if c["shape"] == "mirror":
+            # two paths with the same stat shape (size, atime, mtime), different bytes, hashed alternately
+            for pth, d in ((pf, contents[0]), (pg, contents[1])):
+                with open(pth, "wb") as f:
+                    f.write(d)
+            st = os.stat(pf)
+            os.utime(pg, ns=(st.st_atime_ns, st.st_mtime_ns))
+            for k, (fname, idx, _) in enumerate(steps):
+                if c.get("swap") and k == 2:           # swap the bytes of the two files in place, times restored
+                    replace_file(pf, contents[1], "a:r+b")
+                    replace_file(pg, contents[0], "a:r+b")
+                out.append(hash_path_routes(pf if fname == "f" else pg, real, fname, c["orders"][k], False))
+        else:
+            with open(pf, "wb") as f:
+                f.write(contents[0])
+            kind = c.get("via", "real").replace("alt-", "")
+            if kind == "hardlink":
+                os.link(pf, pl)
+            elif kind == "symlink":
+                os.symlink(pf, pl)
+            for k, (fname, idx, linked) in enumerate(steps):
+                if k > 0:
+                    replace_file(pf, contents[idx], c["modes"][k - 1])
+                if linked:
+                    out.append(hash_path_routes(pl, via, "l", c["orders"][k], True))
+                else:
+                    out.append(hash_path_routes(pf, real, "f", c["orders"][k], True))
+        return {"steps": out}
+    finally:
+        shutil.rmtree(base, True)
+
+
+# ---- argument shapes ---------------------------------------------------------------------------
+class StrSub(str):
+    pass
+
+
+class BytesSub(bytes):
+    pass
+
+
+class IntSub(int):
+    pass
+
+
+class Boom(OSError):
+    """the error injected into a stream"""
+
+
+def as_dtype(b, dtype):
+    return {"bytearray": bytearray, "memoryview": memoryview, "sub": BytesSub}.get(dtype, bytes)(b)
+
+
+def names_container(names, ncont, sname):
+    """a FRESH container of the requested type for one call (generators and iterators are one-shot)"""
+    ns = [StrSub(a) for a in names] if sname else list(names)
+    if ncont == "set":
+        return set(ns)
+    if ncont == "frozenset":
+        return frozenset(ns)
+    if ncont == "tuple":
+        return tuple(ns)
+    if ncont == "dict":
+        return {a: k for k, a in enumerate(ns)}
+    if ncont == "keys":
+        return {a: k for k, a in enumerate(ns)}.keys()
+    if ncont == "gen":
+        return (a for a in ns)
+    if ncont == "iter":
+        return iter(ns)
+    return ns
+
+
+class TypedReader:
+    """read() returns bytes-like objects of another type than bytes"""
+
+    def __init__(self, data, rtype):
+        self.f, self.rtype = io.BytesIO(data), rtype
+
+    def read(self, n=-1):
+        return as_dtype(self.f.read(n), self.rtype)
+
+
+def shape_paths(c, data):
+    """the file of the case reached through the path type of the case; returns (path for from_path, cleanup)"""
+    import pathlib
+    d = tempfile.mkdtemp(prefix="sh", dir=tmpdir())
+    pt = c.get("ptype", "str")
+    name = b"f\xff\xfe .bin" if pt == "nonutf8" else b"f"
+    full = os.path.join(d.encode(), name)
+    with open(full, "wb") as f:
+        f.write(data)
+    old = os.getcwd()
+    if pt == "bytes" or pt == "nonutf8":
+        P = full
+    elif pt == "path":
+        P = pathlib.Path(os.fsdecode(full))
+    elif pt == "rel":
+        os.chdir(d)
+        P = "f"
+    elif pt == "reldot":
+        os.chdir(d)
+        P = b"./f"
+    elif pt == "dotdot":
+        os.mkdir(os.path.join(d, "sub"))
+        P = os.path.join(d, "sub", "..", "f")
+    elif pt == "dirlink":                       # through a symbolic link to the directory
+        os.symlink(d, d + "-l")
+        P = os.path.join(d + "-l", "f")
+    else:
+        P = os.fsdecode(full)
+
+    def cleanup():
+        os.chdir(old)
+        shutil.rmtree(d, True)
+        if os.path.lexists(d + "-l"):
+            os.unlink(d + "-l")
+    return P, cleanup
+
+
+def shape_names(c):
+    from swh.model import hashutil
+    return sorted(hashutil.DEFAULT_ALGORITHMS) if c.get("names") is None else list(c["names"])
+
+
+def impl_shape(c):
+    import datetime
+    from swh.model import cli, from_disk, hashutil, model
+    MH = hashutil.MultiHash
+    data = data_of(c["data"])
+    n = len(data)
+    default = c.get("names") is None                   # hash_names left at its default: the argument is not passed at all
+    names = shape_names(c)
+    ncont, sname, dtype = c.get("ncont", "list"), c.get("sname", False), c.get("dtype", "bytes")
+    L = {"bool": bool, "intsub": IntSub}.get(c.get("ltype"), int)(n)
+    res, mutated = {}, []
+
+    def kw():
+        if default:
+            return {}
+        cont = names_container(names, ncont, sname)
+        if ncont not in ("gen", "iter"):
+            conts.append((cont, list(cont) if ncont != "keys" else list(cont)))
+        return {"hash_names": cont}
+    conts = []
+    P, cleanup = shape_paths(c, data)
+    try:
+        res["fd"] = guard(lambda: mh_res(MH.from_data(as_dtype(data, dtype), **kw()).digest()))
+        res["ff"] = guard(lambda: mh_res(MH.from_file(TypedReader(data, c.get("rtype", "bytes")), length=L, **kw()).digest()))
+        res["fp"] = guard(lambda: mh_res(MH.from_path(P, **kw()).digest()))
+
+        def chunked():
+            h = MH(length=L, **kw())
+            for ch in chunks_of(data, c["cuts"]):
+                h.update(as_dtype(ch, dtype))
+            return mh_res(h.digest())
+        res["ch"] = guard(chunked)
+        for cont, before in conts:
+            if list(cont) != before:
+                mutated.append(type(cont).__name__)
+        res["hg"] = guard(lambda: {"length": None, "d": {"sha1_git": hashutil.hash_git_data(as_dtype(data, dtype), "blob").hex()}})
+
+        def db():
+            o = from_disk.Content.from_bytes(mode=c.get("mode", 0o100644), data=as_dtype(data, dtype))
+            r = content_res(lambda k: o.data[k], o.data["length"])
+            r["hash"] = o.hash.hex()
+            return r
+        res["db"] = guard(db)
+
+        def df():
+            o = from_disk.Content.from_file(path=P)
+            r = content_res(lambda k: o.data[k], o.data["length"], {"absent": "01" if o.data["status"] == "absent" else "00"})
+            r["hash"] = o.hash.hex()
+            return r
+        res["df"] = guard(df)
+        res["cf"] = guard(lambda: {"length": None, "d": {"swhid": str(cli.swhid_of_file(P)).encode().hex()}})
+        res["cs"] = guard(lambda: {"length": None, "d": {"swhid": str(cli.swhid_of_file_content(as_dtype(data, dtype))).encode().hex()}})
+        if dtype in ("bytes", "sub"):                  # model.Content only takes bytes (validated)
+            def mc():
+                o = model.Content.from_data(as_dtype(data, dtype), status="hidden",
+                                            ctime=datetime.datetime(2020, 1, 2, 3, 4, 5, tzinfo=datetime.timezone.utc))
+                r = content_res(lambda k: getattr(o, k), o.length)
+                bad = [k for k in ("sha1", "sha1_git", "sha256", "blake2s256") if o.get_hash(k) != getattr(o, k) or o.to_dict()[k] != getattr(o, k)]
+                if o.unique_key() != o.sha1 or str(o.swhid()) != "swh:1:cnt:" + o.sha1_git.hex() or o.to_dict()["length"] != o.length:
+                    bad.append("unique_key/swhid/to_dict")
+                r["extras_bad"] = bad
+                r["hashes"] = [{k: v.hex() for k, v in o.hashes().items()}]
+                return r
+            res["mc"] = guard(mc)
+
+        def ms():
+            o = model.SkippedContent.from_data(as_dtype(data, dtype), reason="too big", ctime=None)
+            r = content_res(lambda k: getattr(o, k), o.length)
+            r["hashes"] = [{k: v.hex() for k, v in o.hashes().items()}, {k: v.hex() for k, v in o.unique_key().items()}]
+            return r
+        res["ms"] = guard(ms)
+    finally:
+        cleanup()
+    if mutated:
+        res["names_mutated"] = mutated
+    return res
+
+
+HGD_TYPES = ["blob", "tree", "commit", "tag", "snapshot", "raw_extrinsic_metadata", "extid"]
+
+
+def impl_hgd(c):
+    from swh.model import hashutil
+    data = as_dtype(data_of(c["data"]), c.get("dtype", "bytes"))
+    if c.get("base") is None:
+        return {"hg": guard(lambda: {"length": None, "d": {"sha1_git": hashutil.hash_git_data(data, c["type"]).hex()}})}
+    return {"hg": guard(lambda: {"length": None, "d": {"sha1_git": hashutil.hash_git_data(data, c["type"], c["base"]).hex()}})}
+
+
+# ---- seq: near-identical contents one after another (memos keyed on length / prefix / object identity) ----
+def seq_content(c, idx):
+    base = bytearray(data_of(c["base"]))
+    if idx > 0:
+        p = c["pos"][idx - 1] % len(base)
+        base[p] ^= idx
+    return bytes(base)
+
+
+def impl_seq(c):
+    from swh.model import cli, from_disk, hashutil, model
+    MH = hashutil.MultiHash
+    names = list(hashutil.DEFAULT_ALGORITHMS) + ["length"]
+    shared = io.BytesIO()                              # ONE stream object re-filled for every visit when c["reuse"]
+    out = []
+    for idx, routes in c["visits"]:
+        data = seq_content(c, idx)                     # a fresh object every time; the previous one is garbage by now
+        n = len(data)
+        res = {}
+        for code in routes:
+            if code == "fd":
+                res[code] = guard(lambda: mh_res(MH.from_data(data, hash_names=names).digest()))
+            elif code == "ff":
+                if c.get("reuse"):
+                    shared.seek(0)
+                    shared.truncate(0)
+                    shared.write(data)
+                    shared.seek(0)
+                    f = shared
+                else:
+                    f = io.BytesIO(data)
+                res[code] = guard(lambda: mh_res(MH.from_file(f, hash_names=names, length=n).digest()))
+            elif code == "ch":
+                def chunked():
+                    h = MH(hash_names=names, length=n)
+                    h.update(data[:n // 2])
+                    h.update(data[n // 2:])
+                    return mh_res(h.digest())
+                res[code] = guard(chunked)
+            elif code == "hg":
+                res[code] = guard(lambda: {"length": None, "d": {"sha1_git": hashutil.hash_git_data(data, "blob").hex()}})
+            elif code == "mc":
+                def mc():
+                    o = model.Content.from_data(data)
+                    return content_res(lambda k: getattr(o, k), o.length)
+                res[code] = guard(mc)
+            elif code == "ms":
+                def ms():
+                    o = model.SkippedContent.from_data(data, reason="r")
+                    return content_res(lambda k: getattr(o, k), o.length)
+                res[code] = guard(ms)
+            elif code == "db":
+                def db():
+                    o = from_disk.Content.from_bytes(mode=0o100644, data=data)
+                    return content_res(lambda k: o.data[k], o.data["length"])
+                res[code] = guard(db)
+            elif code == "cs":
+                res[code] = guard(lambda: {"length": None, "d": {"swhid": str(cli.swhid_of_file_content(data)).encode().hex()}})
+        del data
+        out.append(res)
+    return {"visits": out}
+
+
+def module_constants():
+    from swh.model import hashutil
+    return (sorted(hashutil.ALGORITHMS), sorted(hashutil.DEFAULT_ALGORITHMS), hashutil.HASH_BLOCK_SIZE)
+
+
 def impl(c):
+    before = module_constants()
+    res = impl_kind(c)
+    after = module_constants()
+    if after != before and isinstance(res, dict):
+        res["globals_changed"] = "%s -> %s" % (before, after)
+    return res
+
+
+def impl_kind(c):
     if c["kind"] == "script":
         return impl_script(c)
+    if c["kind"] == "shape":
+        return impl_shape(c)
+    if c["kind"] == "hgd":
+        return impl_hgd(c)
+    if c["kind"] == "seq":
+        return impl_seq(c)
     if c["kind"] == "overlap":
         return impl_overlap(c)
     if c["kind"] == "stream":
         return impl_stream(c)
+    if c["kind"] == "rehash":
+        return impl_rehash(c)
     return impl_routes(c)
 
 
@@ -810,6 +1293,32 @@ def requests(c):
             else:
                 ops.append("%s:%d" % (op[0], op[1]))
         return ["script sym new " + ("/".join(ops) if ops else "~")]
+    if c["kind"] == "shape":
+        data = data_of(c["data"])
+        chunks = chunks_of(data, c["cuts"])
+        routes = "fd,ff,fp,ch,hg,db,df,cf,cs,ms" + (",mc" if c.get("dtype", "bytes") in ("bytes", "sub") else "")
+        return ["run sym %s %s %d %s ~ -" % (routes, enc_names(shape_names(c)), len(data),
+                                              "|".join(hx(ch) for ch in chunks) if chunks else "~")]
+    if c["kind"] == "hgd":
+        return ["hgd sym %s %s %s" % (hx(c["type"].encode()), hx((c.get("base") or "sha1").encode()), hx(data_of(c["data"])))]
+    if c["kind"] == "seq":
+        from swh.model.hashutil import DEFAULT_ALGORITHMS
+        names = enc_names(["length"] + sorted(DEFAULT_ALGORITHMS))
+        reqs = []
+        for idx, routes in c["visits"]:
+            d = seq_content(c, idx)
+            n = len(d)
+            reqs.append("run sym %s %s %d %s ~ -" % (",".join(routes), names, n, "|".join(hx(x) for x in (d[:n // 2], d[n // 2:]))))
+        return reqs
+    if c["kind"] == "rehash":
+        # the model is a pure function of the bytes read: one plain run per hashing, on the bytes the file holds at that moment
+        from swh.model.hashutil import DEFAULT_ALGORITHMS
+        names = enc_names(["length"] + sorted(DEFAULT_ALGORITHMS))
+        reqs = []
+        for fname, idx, linked in rehash_steps(c):
+            d = data_of(c["contents"][idx])
+            reqs.append("run sym fp,df,cf %s %d %s ~ -" % (names, len(d), hx(d) if d else "~"))
+        return reqs
     if c["kind"] == "stream":
         # the model hashes the byte string it is given: here the bytes that REMAIN in the stream
         data = data_of(c["data"])
@@ -902,6 +1411,12 @@ def model(c, resp):
         return {"parts": [parse_run(r) for r in resp]}
     if c["kind"] == "stream":
         return {"sym": parse_run(resp[0])}
+    if c["kind"] == "rehash":
+        return {"steps": [parse_run(r) for r in resp]}
+    if c["kind"] in ("shape", "hgd"):
+        return {"sym": parse_run(resp[0])}
+    if c["kind"] == "seq":
+        return {"visits": [parse_run(r) for r in resp]}
     out = {"sym": parse_run(resp[0])}
     k = 1
     if c.get("sched"):
@@ -968,7 +1483,8 @@ def cmp_route(code, m, i, data, mode="sym"):
     return None
 
 
-IMPL_TO_MODEL = {"ffr": "ff", "sp": "cf", "fpl": "fp"}
+REHASH_TO_MODEL = {"fp": "fp", "df": "df", "dd": "df", "tm": "df", "id": "df", "cf": "cf", "sp": "cf"}
+IMPL_TO_MODEL = {"ffr": "ff", "sp": "cf", "fpl": "fp", "dls": "dl", "do2": "do", "do3": "do"}
 
 
 def compare(c, ires, mres):
@@ -988,12 +1504,44 @@ def compare(c, ires, mres):
             if why:
                 return why
         return None
+    if c["kind"] in ("shape", "hgd"):
+        m = mres["sym"]
+        if "model_failure" in m:
+            return "model failed: " + m["model_failure"][:200]
+        data = data_of(c["data"])
+        for code, i in ires.items():
+            if isinstance(i, dict) and ("d" in i or "error" in i):
+                why = cmp_route(code, m[code], i, data)
+                if why:
+                    return why
+        return None
+    if c["kind"] == "seq":
+        for k, ((idx, routes), m, i) in enumerate(zip(c["visits"], mres["visits"], ires["visits"])):
+            if "model_failure" in m:
+                return "model failed: " + m["model_failure"][:200]
+            for code, r in i.items():
+                why = cmp_route("%s at visit %d (content #%d)" % (code, k, idx), m[code], r, seq_content(c, idx))
+                if why:
+                    return why
+        return None
+    if c["kind"] == "rehash":
+        for k, ((fname, idx, linked), m, i) in enumerate(zip(rehash_steps(c), mres["steps"], ires["steps"])):
+            if "model_failure" in m:
+                return "model failed: " + m["model_failure"][:200]
+            for code, r in i.items():
+                why = cmp_route("%s at hashing %d of the path (content #%d)" % (code, k, idx),
+                                m[REHASH_TO_MODEL[code]], r, data_of(c["contents"][idx]))
+                if why:
+                    return why
+        return None
     if c["kind"] == "overlap":
         for k, p in enumerate(c["parts"]):
             m = mres["parts"][k]
             if "model_failure" in m:
                 return "model failed: " + m["model_failure"][:200]
             for j, i in enumerate(ires["p%d" % k]):
+                if c["mode"] == "failure" and k == 0 and ires.get("raised"):
+                    continue              # the model has no failing reader; the propagated exception is checked by the oracle
                 why = cmp_route("%s of part %d (execution %d, %s)" % (p["route"], k, j, c["mode"]), m[p["route"]], i,
                                 data_of(p["data"]))
                 if why:
@@ -1013,7 +1561,7 @@ def compare(c, ires, mres):
     data = data_of(c["data"])
     sym = mres["sym"]
     for code, i in ires.items():
-        if code == "git":
+        if code in ("git", "globals_changed"):
             continue
         if code == "ffs":
             m = mres.get("short", {}).get("ff")
@@ -1045,6 +1593,11 @@ def oracle_overlap(c, ires):
     for k, p in enumerate(c["parts"]):
         data = data_of(p["data"])
         rs = ires["p%d" % k]
+        if c["mode"] == "failure" and k == 0 and ires.get("raised"):
+            if rs[0].get("error") != "Other(Boom)":
+                return ("the stream raised an OSError subclass at its read call #%d but from_file %s" % (
+                    c["fail_at"], "returned digests" if "error" not in rs[0] else "raised " + rs[0]["error"]))
+            continue
         if k == 0 and not rs or c["mode"] == "threads" and len(rs) != 1:
             return "part %d was executed %d times" % (k, len(rs))
         for j, r in enumerate(rs):
@@ -1057,13 +1610,76 @@ def oracle_overlap(c, ires):
     return None
 
 
+def oracle_shape(c, ires):
+    """the same digests whatever the TYPE of the arguments: container of names, str/int/bytes subclasses, bytes-like data
+    and chunks, path types, parameters left at their default"""
+    if ires.get("names_mutated"):
+        return "the library modified the hash_names container it was given (%s)" % ires["names_mutated"]
+    names = shape_names(c)
+    shape = "names %s as %s%s, length as %s, data/chunks as %s, read() returning %s, path as %s" % (
+        "left at the default" if c.get("names") is None else names, c.get("ncont", "list"), " of str subclasses" if c.get("sname") else "",
+        c.get("ltype", "int"), c.get("dtype", "bytes"), c.get("rtype", "bytes"), c.get("ptype", "str"))
+    for code, r in ires.items():
+        if not (isinstance(r, dict) and ("d" in r or "error" in r)):
+            continue
+        why = oracle({"kind": "names" if code in MULTIHASH_ROUTES else "routes", "data": c["data"], "names": names, "cuts": c["cuts"]},
+                     {code: r}, None)
+        if not why and r.get("extras_bad"):
+            why = "get_hash / to_dict / unique_key / swhid disagree with the attributes: %s" % r["extras_bad"]
+        if why:
+            return "%s [%s]" % (why, shape)
+    return None
+
+
+def oracle_hgd(c, ires):
+    r = ires["hg"]
+    data = data_of(c["data"])
+    if c["type"] not in HGD_TYPES:
+        return None if r.get("error") == "ValueError" else "hash_git_data(.., %r) %s, expected ValueError" % (
+            c["type"], "raised " + r["error"] if "error" in r else "returned a digest")
+    if "error" in r:
+        return "hash_git_data(<%d bytes>, %r, %r) raised %s" % (len(data), c["type"], c.get("base"), r["error"])
+    want = HL(c.get("base") or "sha1", b"%s %d\0" % (c["type"].encode(), len(data)) + data).hex()
+    if r["d"]["sha1_git"] != want:
+        return "hash_git_data(<%d bytes>, %r, %r) is %s, expected %s" % (len(data), c["type"], c.get("base"), r["d"]["sha1_git"], want)
+    return None
+
+
+def oracle_seq(c, ires):
+    """contents of the same length that differ in one byte, hashed one after another (and again): each its own digests"""
+    if len(ires["visits"]) != len(c["visits"]):
+        return "%d visits executed" % len(ires["visits"])
+    for k, ((idx, routes), res) in enumerate(zip(c["visits"], ires["visits"])):
+        d = seq_content(c, idx)
+        for code, r in res.items():
+            why = oracle({"kind": "routes", "data": {"t": "hex", "v": d.hex()}, "cuts": []}, {code: r}, None)
+            if why:
+                stale = [j for j in range(len(c["pos"]) + 1) if j != idx and "error" not in r and
+                         r["d"].get("sha1", r["d"].get("sha1_git")) in (hashlib.sha1(seq_content(c, j)).hexdigest(),
+                                                                        hashlib.sha1(b"blob %d\0" % len(d) + seq_content(c, j)).hexdigest())]
+                return "visit %d (content #%d of %d same-length contents differing in one byte%s): %s%s" % (
+                    k, idx, len(c["pos"]) + 1, ", one BytesIO object re-filled" if c.get("reuse") else "", why,
+                    " - these are the digests of content #%d hashed earlier" % stale[0] if stale else "")
+    return None
+
+
 def oracle(c, ires, mres):
+    if isinstance(ires, dict) and ires.get("globals_changed"):
+        return "a module-level constant of hashutil was modified by the call: " + ires["globals_changed"][:300]
     if c["kind"] == "script":
         return oracle_script(c, ires)
+    if c["kind"] == "shape":
+        return oracle_shape(c, ires)
+    if c["kind"] == "hgd":
+        return oracle_hgd(c, ires)
+    if c["kind"] == "seq":
+        return oracle_seq(c, ires)
     if c["kind"] == "overlap":
         return oracle_overlap(c, ires)
     if c["kind"] == "stream":
         return oracle_stream(c, ires)
+    if c["kind"] == "rehash":
+        return oracle_rehash(c, ires)
     data = data_of(c["data"])
     n = len(data)
     r = ires.get("ch", {})
@@ -1078,6 +1694,8 @@ def oracle(c, ires, mres):
         return None        # unknown algorithm: only the exception class is compared (compare())
     blob_id = hashlib.sha1(b"blob %d\0" % n + data).hexdigest()
     for code, r in ires.items():
+        if code == "globals_changed":
+            continue
         if code == "git":
             if r is not None and r != blob_id:
                 return "git hash-object gives %s but the blob manifest hashes to %s" % (r, blob_id)
@@ -1115,7 +1733,7 @@ def oracle(c, ires, mres):
             if bytes.fromhex(r["d"]["swhid"]).decode("ascii", "replace") != "swh:1:cnt:" + blob_id:
                 return "identify (%s) printed %r, expected swh:1:cnt:%s" % (code, bytes.fromhex(r["d"]["swhid"])[:80], blob_id)
         else:
-            src = b"" if code == "do" else data
+            src = b"" if code in ("do", "do2", "do3") else data
             for a in ("sha1", "sha1_git", "sha256", "blake2s256"):
                 if r["d"][a] != spec_digest(a, len(src), src).hex():
                     return "entry point %s: %s is %s, expected %s" % (code, a, r["d"][a], spec_digest(a, len(src), src).hex())
@@ -1126,10 +1744,40 @@ def oracle(c, ires, mres):
                     return "entry point %s: hashes() call %d (the first result was edited by the caller) is %s" % (code, j, str(hh)[:200])
             if "hash" in r and r["hash"] != r["d"]["sha1_git"]:
                 return "entry point %s: node hash differs from sha1_git" % code
+            if r.get("cv_bad"):
+                return "hash_to_hex / hash_to_bytehex / hash_to_bytes / bytehex_to_hash do not round-trip the digests %s" % r["cv_bad"]
+            if "model_length" in r and r["model_length"] != len(src):
+                return "entry point %s: to_model() has length %s" % (code, r["model_length"])
             if code == "df":
                 ml = c.get("maxlen")
                 if r["d"]["absent"] != ("01" if ml is not None and n > ml else "00"):
                     return "from_disk.Content.from_file: status does not reflect max_content_length"
+    return None
+
+
+REHASH_ROUTE_NAME = {"fp": "MultiHash.from_path", "df": "from_disk.Content.from_file", "dd": "from_disk.Directory.from_disk(parent)[name]",
+                     "tm": "Content.from_file(path).to_model().with_data()", "id": "iter_directory(Directory.from_disk(parent))",
+                     "cf": "swh identify <path> (in process)", "sp": "swh identify <path> (subprocess)"}
+
+
+def oracle_rehash(c, ires):
+    """every hashing of a path gives the digests / length of the bytes that are in the file at that moment"""
+    steps = rehash_steps(c)
+    if len(ires["steps"]) != len(steps):
+        return "%d hashings executed, %d expected" % (len(ires["steps"]), len(steps))
+    for k, ((fname, idx, linked), res) in enumerate(zip(steps, ires["steps"])):
+        d = data_of(c["contents"][idx])
+        for code, r in res.items():
+            why = oracle({"kind": "routes", "data": c["contents"][idx], "cuts": []}, {code: r}, None)
+            if not why and "data_sha256" in r and r["data_sha256"] != hashlib.sha256(d).hexdigest():
+                why = "the data attached to the model object is not the file's current content"
+            if why:
+                how = ("two paths of identical size and times" if c["shape"] == "mirror" else
+                       "after replacements %s%s" % (c["modes"][:k], ", through a " + c["via"] if c.get("via", "real") != "real" else ""))
+                stale = [j for j, sp in enumerate(c["contents"]) if j != idx and "error" not in r and
+                         r["d"].get("sha1") == hashlib.sha1(data_of(sp)).hexdigest()]
+                return "hashing %d of the path (%s), %s: %s%s" % (
+                    k, how, REHASH_ROUTE_NAME[code], why, " - these are the digests of content #%d, no longer/not in this file" % stale[0] if stale else "")
     return None
 
 
@@ -1278,6 +1926,8 @@ def gen(rng, tier):
         if not quick and r > 0.9:
             n = rng.choice(edge)
         lengths.append((n, rng.choice(data_styles + ["rand", "text"]), rng.choice(cut_styles)))
+    if not quick:
+        lengths += [(1 << 20, "rand", "blocks"), ((1 << 20) + 1, "text", "around-blocks"), (600000, "zero", "whole")]   # large
     big_exec = 0
     for idx, (n, ds, cs) in enumerate(lengths):
         if cs == "bytes" and n > 3000:
@@ -1416,6 +2066,119 @@ def gen(rng, tier):
     cases += gen_overlap(rng, quick, universe)
     cases += gen_streams(rng, quick, universe)
     cases += gen_result_edits(rng, quick, universe)
+    cases += gen_rehash(rng, quick)
+    cases += gen_shapes(rng, quick, universe)
+    return cases
+
+
+NCONTS = ["list", "set", "frozenset", "tuple", "dict", "keys", "gen", "iter"]
+DTYPES = ["bytes", "bytearray", "memoryview", "sub"]
+PTYPES = ["str", "bytes", "path", "rel", "reldot", "dotdot", "dirlink", "nonutf8"]
+HGD_BASES = [None, "sha1", "sha256", "md5", "sha512", "blake2s256", "blake2b512", "BLAKE2S256", "blake2s128", "SHA1", "sha3_256"]
+
+
+def gen_shapes(rng, quick, universe):
+    """argument SHAPES (types, defaults), hash_git_data's type x base matrix, near-identical contents in sequence, failing streams"""
+    cases = []
+    sizes = [0, 1, 1, 2, 3, 100, 2047, 2048, 5000, BLOCK, BLOCK + 1, 2 * BLOCK + 17]
+    for k in range(64 if quick else 1600):
+        n = rng.choice(sizes[:9] if quick and rng.random() < 0.85 else sizes)
+        c = {"kind": "shape", "data": gen_data(rng, n, rng.choice(["rand", "rand", "text", "zero"])),
+             "cuts": gen_cuts(rng, n, rng.choice(["random", "empties", "whole", "none"]))}
+        if k % 4 != 0:                                  # k % 4 == 0: hash_names left at its default everywhere
+            names = [a for a in universe if rng.random() < 0.5]
+            rng.shuffle(names)
+            c["names"] = names
+            c["ncont"] = NCONTS[(k // 4) % len(NCONTS)]
+            if rng.random() < 0.3:
+                c["sname"] = True
+        c["dtype"] = DTYPES[k % len(DTYPES)] if rng.random() < 0.8 else rng.choice(DTYPES)
+        c["rtype"] = rng.choice(DTYPES)
+        c["ptype"] = PTYPES[(k // 2) % len(PTYPES)]
+        c["ltype"] = "bool" if n <= 1 and rng.random() < 0.7 else rng.choice(["int", "int", "intsub"])
+        c["mode"] = rng.choice([0o100644, 0o100755, 0o120000, 0o040000, 644, 0])
+        cases.append(c)
+    # hash_git_data: every type x base algorithm, unknown types
+    combos = [(t, b) for t in HGD_TYPES + ["blobb", "", "Blob", "blob "] for b in HGD_BASES]
+    rng.shuffle(combos)
+    for t, b in (combos[:40] if quick else combos * 3):
+        n = rng.choice([0, 1, 3, 100, 5000])
+        c = {"kind": "hgd", "type": t, "base": b, "data": gen_data(rng, n, "rand")}
+        if rng.random() < 0.3:
+            c["dtype"] = rng.choice(DTYPES)
+        cases.append(c)
+    # near-identical contents in sequence
+    routes = ["fd", "ff", "ch", "hg", "mc", "ms", "db", "cs"]
+    for k in range(30 if quick else 800):
+        n = rng.choice([1, 2, 64, 300, 4096, 5000] + ([BLOCK + 1] if not quick or k % 10 == 0 else []))
+        nc = rng.choice([2, 3, 4, 5])
+        where = rng.choice(["middle", "first", "last", "any"])
+        pos = [{"middle": n // 2, "first": 0, "last": n - 1}.get(where, rng.randrange(n)) for _ in range(nc - 1)]
+        order = list(range(nc)) + [rng.randrange(nc) for _ in range(rng.randrange(1, 4))]      # every content, then revisits
+        if rng.random() < 0.5:
+            rng.shuffle(order)
+        same = rng.random() < 0.5                         # the same entry point every time / rotating entry points
+        r0 = rng.sample(routes, rng.choice([1, 2, 3]))
+        visits = [[idx, r0 if same else rng.sample(routes, rng.choice([1, 2]))] for idx in order]
+        cases.append({"kind": "seq", "base": gen_data(rng, n, rng.choice(["rand", "zero", "text"])), "pos": pos, "visits": visits,
+                      "reuse": rng.random() < 0.5})
+    # a stream that fails in the middle, then other computations
+    for k in range(12 if quick else 300):
+        n = rng.choice([1, 300, BLOCK + 1, 2 * BLOCK + 17] if not quick else [1, 300, 5000, BLOCK + 1])
+        p0 = gen_part(rng, n, universe, force_stream=True)
+        others = [gen_part(rng, rng.choice([1, 17, 300, 2048]), universe) for _ in range(rng.choice([1, 2]))]
+        for o in others:
+            if o["route"] == "ff":
+                o.pop("sched", None)
+        cases.append({"kind": "overlap", "mode": "failure", "parts": [p0] + others, "fail_at": rng.choice([0, 1, 1, 2, 3, 50])})
+    return cases
+
+
+def gen_rehash(rng, quick):
+    """one path hashed 2-4 times while its bytes are replaced in between; two paths of identical stat shape"""
+    cases = []
+    sizes = [1, 2, 17, 300, 4096, 5000, BLOCK - 1, BLOCK, BLOCK + 1, 2 * BLOCK + 17]
+    n_sp = 0
+    for k in range(48 if quick else 1200):
+        if k % 6 == 5:
+            n = rng.choice(sizes[:5] if quick else sizes[:7])
+            contents = [gen_data(rng, n, "rand"), gen_data(rng, n, rng.choice(["rand", "zero", "text"]))]
+            if data_of(contents[0]) == data_of(contents[1]):
+                contents[1] = {"t": "fill", "n": n, "b": 7}
+            rounds = rng.choice([2, 2, 3])
+            c = {"kind": "rehash", "shape": "mirror", "contents": contents, "rounds": rounds, "swap": rng.random() < 0.4}
+            nsteps, allowed = 2 * rounds, ["fp", "df", "dd", "tm", "cf"]
+        else:
+            via = rng.choice(["real", "real", "real", "hardlink", "alt-hardlink", "symlink", "alt-symlink"])
+            nc = rng.choice([2, 2, 3, 4])
+            n = rng.choice((sizes[:5] if quick and rng.random() < 0.8 else sizes) if rng.random() < 0.7 else [rng.randrange(1, 9000)])
+            contents, modes = [gen_data(rng, n, rng.choice(["rand", "rand", "text", "zero"]))], []
+            for j in range(1, nc):
+                letter = rng.choice(["a", "a", "a", "b", "c", "d"] if "hardlink" not in via else ["a", "a", "b", "c"])
+                if letter == "c" or letter == "d" and rng.random() < 0.5:
+                    n = max(0, n + rng.choice([-1, 1, 7, -n // 2]))                   # another length
+                modes.append(letter if letter == "d" else letter + ":" + rng.choice(["r+b", "r+b", "wb"]))
+                nxt = gen_data(rng, n, rng.choice(["rand", "rand", "text", "ff"]))
+                if data_of(nxt) == data_of(contents[-1]) and n:
+                    nxt = {"t": "fill", "n": n, "b": 100 + j}
+                contents.append(nxt)
+            c = {"kind": "rehash", "shape": "sequence", "contents": contents, "modes": modes, "via": via}
+            nsteps = nc
+            allowed = ["fp", "df", "dd", "tm", "id", "cf"]
+        orders = []
+        for j, (fname, idx, linked) in enumerate(rehash_steps(c)):
+            rs = list(allowed)
+            if linked and "symlink" in c.get("via", ""):
+                rs = ["fp", "cf"]                  # through a symbolic link only the entry points that follow it hash the file
+            rng.shuffle(rs)
+            if rng.random() < 0.4:
+                rs = rs[:rng.randrange(1, len(rs) + 1)]
+            orders.append(rs)
+        if n_sp < (2 if quick else 24) and c["shape"] == "sequence" and rng.random() < 0.2:
+            orders[-1].append("sp")
+            n_sp += 1
+        c["orders"] = orders
+        cases.append(c)
     return cases
 
 
@@ -1553,6 +2316,12 @@ def nontrivial(c):
     if c["kind"] == "stream":
         d = data_of(c["data"])
         return len(remaining_of(c, d)) < len(d)             # the stream is not at position 0
+    if c["kind"] == "rehash":
+        return len({data_of(sp) for sp in c["contents"]}) >= 2
+    if c["kind"] == "seq":
+        return len(c["visits"]) >= 2
+    if c["kind"] == "hgd":
+        return True
     n = len(data_of(c["data"]))
     return n >= 1
 
@@ -1562,6 +2331,10 @@ def case_bytes(c):
         return sum(len(op[2]) // 2 for op in c["ops"] if op[0] == "u")
     if c["kind"] == "overlap":
         return sum(len(data_of(p["data"])) for p in c["parts"])
+    if c["kind"] == "rehash":
+        return sum(len(data_of(sp)) for sp in c["contents"]) * 2
+    if c["kind"] == "seq":
+        return len(data_of(c["base"])) * len(c["visits"])
     return len(data_of(c["data"]))
 
 
@@ -1578,6 +2351,30 @@ def classify(c):
         if c.get("buf"):
             ks.append("reused-caller-buffer")
         return ks
+    if c["kind"] == "shape":
+        ks += ["names-container=" + ("default-argument" if c.get("names") is None else c.get("ncont", "list")),
+               "data-type=" + c.get("dtype", "bytes"), "read-returns=" + c.get("rtype", "bytes"), "path-type=" + c.get("ptype", "str"),
+               "length-type=" + c.get("ltype", "int")]
+        if c.get("sname"):
+            ks.append("names-str-subclass")
+        return ks
+    if c["kind"] == "hgd":
+        return ks + ["hgd-type=" + (c["type"] if c["type"] in HGD_TYPES else "unknown"), "hgd-base=" + str(c.get("base"))]
+    if c["kind"] == "seq":
+        return ks + ["seq-contents=%d" % (len(c["pos"]) + 1), "seq-stream-reused" if c.get("reuse") else "seq-fresh-streams"]
+    if c["kind"] == "rehash":
+        ks.append("rehash=" + c["shape"])
+        if c["shape"] == "sequence":
+            ks.append("rehash-via=" + c.get("via", "real"))
+            for m in c["modes"]:
+                ks.append("replace=" + {"a": "in-place,same-length,mtime-restored", "b": "in-place,mtime-changes",
+                                        "c": "in-place,other-length,mtime-restored", "d": "rename,new-inode,times-copied"}[m[0]])
+        elif c.get("swap"):
+            ks.append("rehash-mirror-swap")
+        for o in c["orders"]:
+            for code in o:
+                ks.append("rehash-route=" + code)
+        return ks
     if c["kind"] == "stream":
         d = data_of(c["data"])
         rem = remaining_of(c, d)
@@ -1589,7 +2386,7 @@ def classify(c):
             ks.append("stream-length=" + str(c["length"]))
         return ks
     if c["kind"] == "overlap":
-        ks += ["overlap=" + c["mode"], "overlap-when=" + c.get("when", "after"), "overlap-parts=%d" % len(c["parts"])]
+        ks += ["overlap=" + c["mode"], "overlap-when=" + (c.get("when", "after") if c["mode"] != "failure" else "n/a"), "overlap-parts=%d" % len(c["parts"])]
         for p in c["parts"]:
             ks.append("overlap-part=" + (p["route"] if p["route"] != "ff" else "stream-" + p.get("stream", "both")))
         if any(len(data_of(p["data"])) > BLOCK for p in c["parts"]):
@@ -1644,6 +2441,55 @@ def shrink(c):
             if op[0] == "n" and len(op[1]) > 1:
                 for a in op[1]:
                     yield dict(c, ops=ops[:k] + [["n", [a], op[2]]] + ops[k + 1:])
+        return
+    if c["kind"] == "hgd":
+        d = data_of(c["data"])
+        if len(d) > 1:
+            yield dict(c, data={"t": "hex", "v": d[:1].hex()})
+        if "dtype" in c:
+            yield {k: v for k, v in c.items() if k != "dtype"}
+        return
+    if c["kind"] == "seq":
+        if len(c["visits"]) > 2:
+            for k in range(len(c["visits"])):
+                yield dict(c, visits=c["visits"][:k] + c["visits"][k + 1:])
+        for k, (idx, rs) in enumerate(c["visits"]):
+            if len(rs) > 1:
+                for r in rs:
+                    yield dict(c, visits=c["visits"][:k] + [[idx, [x for x in rs if x != r]]] + c["visits"][k + 1:])
+        d = data_of(c["base"])
+        if len(d) > 2:
+            yield dict(c, base={"t": "hex", "v": d[:2].hex()})
+        if c.get("reuse"):
+            yield dict(c, reuse=False)
+        return
+    if c["kind"] == "shape":
+        d = data_of(c["data"])
+        for m in (0, 1, 2, len(d) // 2):
+            if m < len(d) and not (c.get("ltype") == "bool" and m > 1):
+                yield dict(c, data={"t": "hex", "v": d[:m].hex()}, cuts=[])
+        for f, v in (("ncont", "list"), ("dtype", "bytes"), ("rtype", "bytes"), ("ptype", "str"), ("ltype", "int"), ("sname", False)):
+            if c.get(f, v) != v and not (f == "ltype" and False):
+                yield dict(c, **{f: v})
+        if c.get("names") and len(c["names"]) > 1:
+            for a in c["names"]:
+                yield dict(c, names=[a])
+        return
+    if c["kind"] == "rehash":
+        cs = [data_of(sp) for sp in c["contents"]]
+        if c["shape"] == "sequence" and len(cs) > 2:                       # drop the last content / the first replacement
+            yield dict(c, contents=c["contents"][:-1], modes=c["modes"][:-1], orders=c["orders"][:-1])
+            yield dict(c, contents=c["contents"][1:], modes=c["modes"][1:], orders=c["orders"][1:])
+        if c["shape"] == "mirror" and c["rounds"] > 2:
+            yield dict(c, rounds=2, orders=c["orders"][:4])
+        if len({len(x) for x in cs}) == 1 and len(cs[0]) > 1:             # equal lengths: 1-byte contents, kept distinct
+            yield dict(c, contents=[{"t": "hex", "v": "%02x" % (65 + j)} for j in range(len(cs))])
+        for k, o in enumerate(c["orders"]):
+            for code in o:
+                if len(o) > 1:
+                    yield dict(c, orders=c["orders"][:k] + [[x for x in o if x != code]] + c["orders"][k + 1:])
+        if c.get("via", "real") != "real":
+            yield dict(c, via="real", orders=[[x for x in o if x != "sp"] or ["df"] for o in c["orders"]])
         return
     if c["kind"] == "stream":
         d = data_of(c["data"])
@@ -1794,6 +2640,8 @@ def coq_cases(cases):
     def term(rq):
         w = rq.split(" ")
         H = {"sym": "Hsym", "exec": "Hexec"}[w[1]]
+        if w[0] == "hgd":
+            return "hgd_case %s %s %s %s" % (H, nl(w[2]), nl(w[3]), nl(w[4]))
         if w[0] == "script":
             return "script_case %s %s" % (H, lst("/", op, w[3]))
         return ("run_case %s %s {| i_names := %s; i_length := %s; i_chunks := %s; i_sched := %s; i_maxlen := %s |}"
@@ -1809,6 +2657,8 @@ Definition dict (show : list N -> list N) (d : digest_t) : list N :=
 Definition show_view (data x : list N) : list N := let (p, t) := view data x in p ++ [if t then 341%N else 342%N].
 Definition run_case (H : list N -> list N -> list N) (rs : list route) (i : input) : list N :=
   concat (map (fun r => match run_route H r i with Ok d => 70%N :: dict (show_view (i_data i)) d | Err e => [71%N; en e] end) rs).
+Definition hgd_case (H : list N -> list N -> list N) (ty base data : list N) : list N :=
+  match hash_git_data H data ty base with Ok v => 70%N :: dict (show_view data) ([(SHA1_GIT, v)], None) | Err e => [71%N; en e] end.
 Definition script_case (H : list N -> list N -> list N) (ops : list op) : list N :=
   concat (map (fun ev => match ev with EvDone => [72%N] | EvErr e => [71%N; en e]
                                      | EvDigest d => 73%N :: dict (fun x => x ++ [342%N]) d end)
